@@ -32,7 +32,7 @@ func (c14) Rule() string {
 }
 func (c14) Batches(string) int { return 16 }
 func (c14) Required(string) []string {
-	return []string{"compared", "invocations", "variant.pooled", "variant.unpooled", "variant.reused", "variant.recycled", "recycled_invoker_rounds", "second_runs_with_kept_invokers", "nested_invocations", "errors_propagated", "tag.call-variadic", "tag.call-spread", "tag.assign-captured", "concurrent_runs", "tail_mix_programs"}
+	return []string{"compared", "invocations", "variant.pooled", "variant.unpooled", "variant.reused", "variant.recycled", "recycled_invoker_rounds", "second_runs_with_kept_invokers", "stdlib_callback_threw", "nested_invocations", "errors_propagated", "tag.call-variadic", "tag.call-spread", "tag.assign-captured", "concurrent_runs", "tail_mix_programs"}
 }
 func (c14) Assumptions() []string {
 	return []string{"run A (in-script calls through a script-defined CALL) is the reference", "the process-wide VM pool is primed by the previously executed programs of the same batch"}
@@ -313,6 +313,40 @@ var c14probes = []string{
 	"global L\nf := func(a, b) { return a - b }\ntry {\n  return CALL(f, 1)\n} catch e {\n  return e.Name\n}",
 }
 
+// stdlibCallbackErrors: the strings functions that take a script function run it through a pooled Invoker. Whenever that
+// function threw (the script counts it), the error has to come back to the script - as it would from a call in the script.
+func (m c14) stdlibCallbackErrors(c *core.Ctx, fn, input string, bad string) {
+	body := "return c == 'x'"
+	if fn == "Map" {
+		body = "return c + 1"
+	}
+	call := "s." + fn + "(" + fmt.Sprintf("%q", input) + ", f)"
+	if fn == "Map" {
+		call = "s.Map(f, " + fmt.Sprintf("%q", input) + ")"
+	}
+	src := "s := import(\"strings\")\nthrew := 0\ncalls := 0\nf := func(c) {\n  calls++\n  if c == '" + bad + "' {\n    threw++\n    throw error(\"boom\")\n  }\n  " + body + "\n}\nr := undefined\ntry {\n  r = " + call + "\n} catch e {\n  r = \"E:\" + e.Message\n}\nreturn [threw, r, calls]\n"
+	p := &Program{Src: src, Builtin: []string{"strings"}}
+	cr := safeCompile([]byte(src), ugo.CompilerOptions{ModuleMap: moduleMapFor(p)})
+	if cr.err != nil || cr.panicv != "" {
+		c.Inconclusive("stdlib callback probe does not compile: " + fmt.Sprint(cr.err) + cr.panicv)
+		return
+	}
+	o := runVM(cr.bc, nil, nil, true)
+	c.Count("stdlib_callback_probes")
+	if o.Kind != "value" {
+		c.Violation("C14|stdlib-callback|"+fn+"|"+o.Kind, "strings."+fn+" with a throwing callback: the script ended with "+o.Kind+" "+o.ErrMsg, c14wit{Src: src, Variant: "stdlib", Why: o.Kind, B: o})
+		return
+	}
+	if strings.HasPrefix(o.Value, "[i:0,") {
+		c.Count("stdlib_callback_never_threw")
+		return
+	}
+	c.Count("stdlib_callback_threw")
+	if !strings.Contains(o.Value, ",s:\"E:boom\",") {
+		c.Violation("C14|stdlib-callback-error-lost|"+fn, "strings."+fn+": the script function threw but the call returned a value: [threw, result, calls] = "+o.Value, c14wit{Src: src, Variant: "stdlib", Why: "error of the callback is lost", B: o})
+	}
+}
+
 func (m c14) Run(c *core.Ctx) {
 	mod0 := map[string]string{"mod0": "global L\nstate := 1\nL(\"mod0-body\")\nreturn {bump: func(d) { state += d; return state }, get: func() { return state }, dep: func() { return -state }}\n"}
 	variants := []string{"pooled", "unpooled", "reused", "recycled"}
@@ -343,6 +377,22 @@ func (m c14) Run(c *core.Ctx) {
 			}
 			if ok, _ := m.pair(c, src, mod0, nil, v); ok {
 				c.Nontrivial(v + src)
+			}
+		}
+	}
+	for _, fn := range []string{"Map", "TrimFunc", "TrimLeftFunc", "TrimRightFunc", "IndexFunc", "LastIndexFunc", "FieldsFunc"} {
+		for _, input := range []string{"xab", "abx", "xax", "aaa", "bxa", "a", "xxab", "baxx", "xbxaxbx", ""} {
+			for _, bad := range []string{"a", "b", "x"} {
+				idx++
+				if idx%c.NBatch != c.Batch {
+					continue
+				}
+				fn, input, bad := fn, input, bad
+				if !c.Begin(func() string { return "stdlib callback " + fn + " " + input + " throws on " + bad }) {
+					continue
+				}
+				m.stdlibCallbackErrors(c, fn, input, bad)
+				c.Nontrivial("stdlibcb " + fn + input + bad)
 			}
 		}
 	}
